@@ -77,16 +77,35 @@ func VerifC05VmConsumers() {
 		want = -2
 		fr.Stack = append(fr.Stack, &VTok{ID: 21}, prod)
 		err = jumpTable[CALL_FUNCTION_VAR](vm, 0)
-	default: // yield from prod  (send None)
-		fr.Stack = append(fr.Stack, prod, py.None)
+	default: // yield from prod  (resumed by next(): None on the stack, or by send(v))
+		var sent py.Object = py.None
+		if verifChoice("sent", 2) == 1 {
+			sent = &VTok{ID: 22}
+		}
+		fr.Stack = append(fr.Stack, prod, sent)
+		depth := len(fr.Stack)
 		err = jumpTable[YIELD_FROM](vm, 0)
 		items, ended := vNextOutcomes()
 		verifReach("ran")
+		if sent == py.None {
+			verifAssert(len(vLog) == 1 && vLog[0] == "next(t20)", "next() on the outer generator advances the delegate by next()")
+		} else {
+			verifAssert(len(vLog) == 1 && vLog[0] == "next(t20;send=t22)", "a value sent to the outer generator is forwarded to the delegate's send()")
+		}
 		switch {
 		case items == 1:
 			verifAssert(err == nil && vm.why == whyYield && fr.Lasti == 9, "an item is yielded and the instruction will be re-executed")
+			verifAssert(len(fr.Stack) == depth-1 && vm.TOP() == py.Object(prod), "the delegate stays on the stack while it is being iterated")
 		case ended == 1:
 			verifAssert(err == nil && vm.why == whyNot, "StopIteration in any form ends the delegation; execution continues")
+			// the value of the yield from expression is the value the StopIteration carries (None if none)
+			verifAssert(len(fr.Stack) == depth-1, "the delegate is replaced by the value of the expression")
+			var want py.Object = py.None
+			k := verifChoiceOf("next1")
+			if k == 3 || k == 4 { // the instance forms: vStopInstance carries its argument
+				want = vStopInstance.Args.(py.Tuple)[0]
+			}
+			verifAssert(vm.TOP() == want, "the value of a yield from expression is the return value of the delegate, carried by its StopIteration")
 		default:
 			verifAssert(err == error(vErr), "another exception propagates unchanged")
 		}
